@@ -11,23 +11,23 @@ def run(ctx, res):
     entry_rule(ctx, res)
 
 
-def entry_rule(ctx, res):
+def entry_rule(ctx, res, rule="C01.entry", tail_only=False):
     P = ctx.P
     n = 0
     for root, (has_opts, kind) in sorted(entry.ENTRY_ROOTS.items()):
         if root not in P.roots:
-            res.violation("C01.entry", "C01.entry/missing-root/" + root, "harness root %s is missing (anchor lost)" % root)
+            res.violation(rule, rule + "/missing-root/" + root, "harness root %s is missing (anchor lost)" % root)
             continue
         try:
             it, outs, opt_syms = entry.run_entry(P, root, has_opts)
         except Undecided as e:
-            res.violation("C01.entry", "C01.entry/undecided/" + root, "undecided while interpreting %s: %s (%s)" % (root, e, e.site))
+            res.violation(rule, rule + "/undecided/" + root, "undecided while interpreting %s: %s (%s)" % (root, e, e.site))
             continue
         cuts = [o for o in outs if o.outcome[0] == "cut"]
         others = [o for o in outs if o.outcome[0] != "cut"]
-        key = "C01.entry/%s" % root[5:]
+        key = rule + "/%s" % root[5:]
         if len(cuts) != 1 or others:
-            res.violation("C01.entry", key + "/shape", "%s does not reach the core parser exactly once on a single path (%d core calls, other outcomes %s)" % (
+            res.violation(rule, key + "/shape", "%s does not reach the core parser exactly once on a single path (%d core calls, other outcomes %s)" % (
                 root, len(cuts), [o.outcome[0] for o in others]))
             continue
         o = cuts[0]
@@ -36,7 +36,7 @@ def entry_rule(ctx, res):
         try:
             parser = it.read_path(o, pref.base, pref.proj)
         except Exception as e:  # noqa
-            res.violation("C01.entry", key + "/parser", "cannot read the parser record passed to the core: %s" % e)
+            res.violation(rule, key + "/parser", "cannot read the parser record passed to the core: %s" % e)
             continue
         t = P.types[parser.ty]
         names = [f["name"] for f in t["variants"][0]["fields"]]
@@ -45,23 +45,47 @@ def entry_rule(ctx, res):
         o_val = fld.get("options")
         if has_opts:
             ok = isinstance(o_val, Agg) and tuple(o_val.fields) == tuple(opt_syms)
-            res.ob(ok, "C01.entry", key + "/options", "%s does not pass its `options` argument unchanged to the parser (got %r)" % (root, o_val),
+            res.ob(ok, rule, key + "/options", "%s does not pass its `options` argument unchanged to the parser (got %r)" % (root, o_val),
                    sample={"entry": root, "options": "caller's argument, unchanged"})
         else:
             ok = isinstance(o_val, Agg) and tuple(o_val.fields) == (Conc(0), Conc(0))
-            res.ob(ok, "C01.entry", key + "/options", "%s must parse with strict default options (both flags false), parser record has %r" % (root, o_val),
+            res.ob(ok, rule, key + "/options", "%s must parse with strict default options (both flags false), parser record has %r" % (root, o_val),
                    sample={"entry": root, "options": "strict (false,false) from Options::default()"})
-        res.ob(isinstance(fld.get("pending"), Agg) and fld["pending"].variant == 0, "C01.entry", key + "/pending",
+        res.ob(isinstance(fld.get("pending"), Agg) and fld["pending"].variant == 0, rule, key + "/pending",
                "%s: the lookahead slot of a fresh parser must be empty" % root)
-        res.ob(fld.get("position") == Conc(0), "C01.entry", key + "/position", "%s: a fresh parser must start at byte offset 0 (got %r)" % (root, fld.get("position")))
+        res.ob(fld.get("position") == Conc(0), rule, key + "/position", "%s: a fresh parser must start at byte offset 0 (got %r)" % (root, fld.get("position")))
         # context argument: Context::None
         cx = args[1]
-        res.ob(isinstance(cx, Agg) and cx.variant == 0, "C01.entry", key + "/context", "%s: the root value must be parsed in Context::None (got %r)" % (root, cx))
+        res.ob(isinstance(cx, Agg) and cx.variant == 0, rule, key + "/context", "%s: the root value must be parsed in Context::None (got %r)" % (root, cx))
         n += 1
         res.count("entry_points_analysed")
-        adaptor_rule(ctx, res, root, key)
-    res.floor("C01.entry", "entry_points_analysed", 13)
-    res.floor("C01.entry", "adaptors_analysed", 13)
+        tail_rule(ctx, res, it, o, root, kind, key, pref, rule)
+        if not tail_only:
+            adaptor_rule(ctx, res, root, key)
+    res.floor(rule, "entry_points_analysed", 13)
+    if not tail_only:
+        res.floor(rule, "adaptors_analysed", 13)
+    res.floor(rule, "core_result_shapes_analysed", 84)
+
+
+def tail_rule(ctx, res, it, o, root, kind, key, pref, rule="C01.entry"):
+    """What the entry point does once the core has returned: Ok(Meta(v, _)) -> Ok((v, parser.code_map)); every error
+    variant is returned unchanged, except that the byte-slice entry points turn Stream(p, _) into InvalidUtf8(p).
+    In particular no entry point produces a verdict of its own (all returning paths pass through the core)."""
+    try:
+        shapes = entry.core_result_shapes(it, o)
+    except Undecided as e:
+        res.violation(rule, key + "/tail-undecided", "%s: %s" % (root, e))
+        return
+    for name, val, payload in shapes:
+        try:
+            outs = entry.run_tail(it, o, val)
+            why = entry.describe_tail(it, root, kind, name, payload, outs, pref, o)
+        except Undecided as e:
+            why = "undecided: %s" % e
+        res.count("core_result_shapes_analysed")
+        res.ob(why is None, rule, key + "/tail/" + name, "%s: %s" % (root, why),
+               sample={"entry": root, "core_result": name, "returned": "unchanged" if not (kind == "bytes" and name == "Err(Stream)") else "InvalidUtf8(p)"})
 
 
 def adaptor_rule(ctx, res, root, key):
